@@ -115,53 +115,26 @@ func init() {
 	})
 }
 
-// registerTmpl is the command's default register.go.tmpl with one change: an
-// entry file is registered under its own path (the default template registers
-// every entry under the single constant EntryPath, so it supports one entry
-// per build; a batch has many). Library files are treated exactly as the
-// default template treats non-entry files.
-const registerTmpl = `package {{.Pkg}}
-
-import (
-	"github.com/php-any/origami/data"
-	"github.com/php-any/origami/node"
-)
-
-func registerClasses(vm data.VM, program data.GetValue) {
-	prog, ok := program.(*node.Program)
-	if !ok {
-		return
+// registerTemplate derives the batch's register.go.tmpl from the command's own
+// defaultRegisterTmpl (extracted from cmd/compile/template.go of the tree under
+// check) by two textual changes: the single `const EntryPath` is removed and an
+// entry file is registered under its own path instead of under EntryPath (the
+// default template supports one entry per build; a batch has many). Library
+// (non-entry) files are handled by the template's own text, unchanged.
+func registerTemplate(repo string) (string, error) {
+	txt, err := templateConst(repo, "defaultRegisterTmpl")
+	if err != nil {
+		return "", err
 	}
-	for _, stmt := range prog.Statements {
-		ns, ok := stmt.(*node.Namespace)
-		if !ok {
-			continue
-		}
-		for _, s := range ns.GetStatements() {
-			if cs, ok := s.(data.ClassStmt); ok {
-				vm.AddClass(cs)
-			}
-		}
+	constBlock := "{{- if .HasEntry}}\nconst EntryPath = {{printf \"%q\" .EntryPath}}\n{{end}}"
+	call := "vm.RegisterCompiledFile(EntryPath,"
+	if !strings.Contains(txt, constBlock) || strings.Count(txt, call) != 1 {
+		return "", fmt.Errorf("defaultRegisterTmpl no longer has the shape the harness adapts (EntryPath constant / RegisterCompiledFile(EntryPath, …))")
 	}
+	txt = strings.Replace(txt, constBlock, "", 1)
+	txt = strings.Replace(txt, call, "vm.RegisterCompiledFile({{printf \"%q\" .Path}},", 1)
+	return txt, nil
 }
-
-// Register 将预编译的 AST 注册到 VM
-func Register(vm data.VM) {
-{{- range .Files}}
-{{- if .IsEntry}}
-	vm.RegisterCompiledFile({{printf "%q" .Path}}, func() (data.GetValue, []data.Variable) {
-		return {{.FuncName}}()
-	})
-{{- else}}
-	if program, vars := {{.FuncName}}(); program != nil {
-		registerClasses(vm, program)
-		ctx := vm.CreateContext(vars)
-		program.GetValue(ctx) //nolint:errcheck
-	}
-{{- end}}
-{{- end}}
-}
-`
 
 // harnessInit is the only hand-written Go file of the runner binary. The
 // compiled side is the command's own default main.go.tmpl (extracted from
@@ -219,8 +192,8 @@ func init() {
 }
 `
 
-// mainTemplate extracts the constant defaultMainTmpl from cmd/compile/template.go.
-func mainTemplate(repo string) (string, error) {
+// templateConst extracts a string constant from cmd/compile/template.go.
+func templateConst(repo, name string) (string, error) {
 	fset := token.NewFileSet()
 	f, err := goparser.ParseFile(fset, filepath.Join(repo, "cmd", "compile", "template.go"), nil, 0)
 	if err != nil {
@@ -237,7 +210,7 @@ func mainTemplate(repo string) (string, error) {
 				continue
 			}
 			for i, nm := range vs.Names {
-				if nm.Name == "defaultMainTmpl" && i < len(vs.Values) {
+				if nm.Name == name && i < len(vs.Values) {
 					if bl, ok := vs.Values[i].(*ast.BasicLit); ok {
 						return strconv.Unquote(bl.Value)
 					}
@@ -245,11 +218,11 @@ func mainTemplate(repo string) (string, error) {
 			}
 		}
 	}
-	return "", fmt.Errorf("constant defaultMainTmpl not found in cmd/compile/template.go")
+	return "", fmt.Errorf("constant %s not found in cmd/compile/template.go", name)
 }
 
 func renderMain(repo string) ([]byte, error) {
-	txt, err := mainTemplate(repo)
+	txt, err := templateConst(repo, "defaultMainTmpl")
 	if err != nil {
 		return nil, err
 	}
@@ -371,7 +344,12 @@ func RunBatch(c *vh.Ctx, idx int, progs []*Prog, runTimeout time.Duration) *Batc
 			return res
 		}
 	}
-	os.WriteFile(filepath.Join(src, ".zy", "register.go.tmpl"), []byte(registerTmpl), 0o644)
+	regT, terr := registerTemplate(c.Repo)
+	if terr != nil {
+		res.Err = "cannot derive the register template: " + terr.Error()
+		return res
+	}
+	os.WriteFile(filepath.Join(src, ".zy", "register.go.tmpl"), []byte(regT), 0o644)
 	byName := map[string]*Prog{}
 	nsArgs := map[string][]string{}
 	libOwner := map[string]string{}
